@@ -28,7 +28,7 @@ ASSUMPTIONS = [
     'script-hash has no key: its negative dimension is "different script"',
 ]
 NSH = 16
-NSCEN = {'quick': 1600, 'thorough': 30_000}
+NSCEN = {'quick': 1600, 'thorough': 90_000}
 O = isa.op
 
 NASTY = [b'"', b"'", b'{ }', b'# x #', b' } else { ', b'end_if', b'\x00',
